@@ -292,11 +292,13 @@ pub fn mul_redc<const N: usize>(a: [u64; N], b: [u64; N], modulus: [u64; N], inv
             // relation
             assert(bp(b_idx as int + 1) == B * bp(b_idx as int));
             assert(lvi(bs, b_idx as int + 1) == lvi(bs, b_idx as int) + b as int * bp(b_idx as int));
-            assert(bp(b_idx as int + 1) * acc_new == av * lvi(bs, b_idx as int + 1) + mv * (mu + m as int * bp(b_idx as int))) by(nonlinear_arith)
-                requires bp(b_idx as int + 1) == B * bp(b_idx as int),
-                         B * acc_new == acc_old + av * b as int + mv * m as int,
-                         bp(b_idx as int) * acc_old == av * lvi(bs, b_idx as int) + mv * mu,
-                         lvi(bs, b_idx as int + 1) == lvi(bs, b_idx as int) + b as int * bp(b_idx as int);
+            {
+                let k = b_idx as int; let w = bp(k); let ll = lvi(bs, k); let bi = b as int;
+                lemma_mul_is_distributive_add(av, ll, bi * w);
+                lemma_mul_is_associative(av, bi, w); lemma_mul_is_commutative(av * bi, w);
+                lemma_mul_is_commutative(mv, m as int);
+                lemma_scale_step(B, w, bp(k + 1), acc_new, acc_old, av * bi, m as int, mv, av * ll, av * lvi(bs, k + 1), w * (av * bi), mu);
+            }
             mu = mu + m as int * bp(b_idx as int);
             lemma_lvi_bound(result@, n);
         }/*-*/
@@ -426,6 +428,48 @@ pub proof fn lemma_sq_part_step(p: int, t: int, av: int)
     assert((p + t) * (2 * av - (p + t)) == p * (2 * av - p) + t * (t + 2 * (av - (p + t)))) by(nonlinear_arith);
 }
 
+// scaling the accumulator relation by one limb:  w1 = b*w,  b*accn = acco + row + m*mv,  w*acco = s0 + mv*mu,  w*row = r,  s1 = s0 + r
+//   ==>  w1*accn = s1 + mv*(mu + m*w)      (distributivity only: deterministic, no nonlinear search)
+pub proof fn lemma_scale_step(b: int, w: int, w1: int, accn: int, acco: int, row: int, m: int, mv: int, s0: int, s1: int, r: int, mu: int)
+    requires w1 == b * w, b * accn == acco + row + m * mv, w * acco == s0 + mv * mu, w * row == r, s1 == s0 + r
+    ensures w1 * accn == s1 + mv * (mu + m * w)
+{
+    // w1*accn == w*(b*accn)
+    lemma_mul_is_commutative(b, w);
+    lemma_mul_is_associative(w, b, accn);
+    assert(w1 * accn == w * (b * accn));
+    // w*(acco + row + m*mv) == w*acco + w*row + w*(m*mv)
+    lemma_mul_is_distributive_add(w, acco + row, m * mv);
+    lemma_mul_is_distributive_add(w, acco, row);
+    // w*(m*mv) == mv*(m*w)
+    lemma_mul_is_associative(w, m, mv);
+    lemma_mul_is_commutative(w, m);
+    lemma_mul_is_commutative(m * w, mv);
+    assert(w * (m * mv) == mv * (m * w));
+    // mv*mu + mv*(m*w) == mv*(mu + m*w)
+    lemma_mul_is_distributive_add(mv, mu, m * w);
+}
+
+// one step of the doubled-product row:  R + cin*w = r + K + 2*ai*(A - P)  and  v + cout*B = 2*(ai*aj) + x + cin
+//   ==>  (R + v*w) + (cout*B)*w = (r + x*w) + K + 2*ai*((A + aj*w) - P)        (distributivity only)
+pub proof fn lemma_row_acc(w: int, rr: int, v: int, cin: int, cout: int, r: int, x: int, kk: int, ai: int, aj: int, aa: int, pp: int)
+    requires rr + cin * w == r + kk + 2 * ai * (aa - pp), v + cout * B == 2 * (ai * aj) + x + cin
+    ensures (rr + v * w) + (cout * B) * w == (r + x * w) + kk + 2 * ai * ((aa + aj * w) - pp)
+{
+    // (v + cout*B)*w == v*w + (cout*B)*w
+    lemma_mul_is_distributive_add_other_way(w, v, cout * B);
+    // (2*(ai*aj) + x + cin)*w == (2*(ai*aj))*w + x*w + cin*w
+    lemma_mul_is_distributive_add_other_way(w, 2 * (ai * aj) + x, cin);
+    lemma_mul_is_distributive_add_other_way(w, 2 * (ai * aj), x);
+    // 2*ai*((aa - pp) + aj*w) == 2*ai*(aa - pp) + 2*ai*(aj*w)
+    lemma_mul_is_distributive_add(2 * ai, aa - pp, aj * w);
+    assert((aa + aj * w) - pp == (aa - pp) + aj * w);
+    // 2*ai*(aj*w) == (2*(ai*aj))*w
+    lemma_mul_is_associative(2 * ai, aj, w);
+    lemma_mul_is_associative(2, ai, aj);
+    assert((2 * ai) * aj == 2 * (ai * aj));
+}
+
 //@ extract src/algorithms/mul_redc.rs fn square_redc
 pub fn square_redc<const N: usize>(a: [u64; N], modulus: [u64; N], inv: u64) -> /*+*/(res:/*-*/ [u64; N]/*+*/)
     requires
@@ -507,15 +551,8 @@ pub fn square_redc<const N: usize>(a: [u64; N], modulus: [u64; N], inv: u64) -> 
                 assert(value as int + c_out * B == 2 * (ai * aj) + r0[jj] as int + c_in) by(nonlinear_arith)
                     requires value as int + carry_lo as int * B + (if carry_hi { B * B } else { 0 }) == 2 * (ai * aj) + r0[jj] as int + c_in,
                              c_out == carry_lo as int + (if carry_hi { B } else { 0 });
-                let X = lvi(r0, jj) + ai * (ai * bp(ii)) + 2 * ai * (lvi(a@, jj) - lvi(a@, ii + 1));
-                assert(lvi(result@, jj + 1) + c_out * (B * bp(jj))
-                        == lvi(r0, jj + 1) + ai * (ai * bp(ii)) + 2 * ai * (lvi(a@, jj + 1) - lvi(a@, ii + 1))) by(nonlinear_arith)
-                    requires lvi(res_before, jj) + c_in * bp(jj) == X,
-                             X == lvi(r0, jj) + ai * (ai * bp(ii)) + 2 * ai * (lvi(a@, jj) - lvi(a@, ii + 1)),
-                             lvi(result@, jj + 1) == lvi(res_before, jj) + value as int * bp(jj),
-                             lvi(r0, jj + 1) == lvi(r0, jj) + r0[jj] as int * bp(jj),
-                             lvi(a@, jj + 1) == lvi(a@, jj) + aj * bp(jj),
-                             value as int + c_out * B == 2 * (ai * aj) + r0[jj] as int + c_in;
+                lemma_row_acc(bp(jj), lvi(res_before, jj), value as int, c_in, c_out, lvi(r0, jj), r0[jj] as int, ai * (ai * bp(ii)), ai, aj, lvi(a@, jj), lvi(a@, ii + 1));
+                lemma_mul_is_associative(c_out, B, bp(jj));
             }/*-*/
         }
         /*+*/let ghost r1 = result@;
@@ -590,12 +627,7 @@ pub fn square_redc<const N: usize>(a: [u64; N], modulus: [u64; N], inv: u64) -> 
             assert(bp(ii + 1) == B * bp(ii));
             assert(bp(ii) * rowv == t * (t + 2 * (av - (p + t)))) by(nonlinear_arith)
                 requires rowv == ai * (ai * bp(ii)) + 2 * ai * (av - (p + t)), t == ai * bp(ii);
-            assert(bp(ii + 1) * acc_new == sq_part(p + t, av) + mv * mu_new) by(nonlinear_arith)
-                requires bp(ii + 1) == B * bp(ii), B * acc_new == acc_old + rowv + m as int * mv,
-                         bp(ii) * acc_old == sq_part(p, av) + mv * mu,
-                         bp(ii) * rowv == t * (t + 2 * (av - (p + t))),
-                         sq_part(p + t, av) == sq_part(p, av) + t * (t + 2 * (av - (p + t))),
-                         mu_new == mu + m as int * bp(ii);
+            lemma_scale_step(B, bp(ii), bp(ii + 1), acc_new, acc_old, rowv, m as int, mv, sq_part(p, av), sq_part(p + t, av), t * (t + 2 * (av - (p + t))), mu);
             // mu_new < bp(i+1)
             assert(0 <= mu_new < bp(ii + 1)) by(nonlinear_arith)
                 requires mu_new == mu + m as int * bp(ii), 0 <= mu <= bp(ii) - 1, 0 <= m as int <= B - 1, bp(ii + 1) == B * bp(ii), bp(ii) >= 1;
